@@ -7,13 +7,27 @@ from .. import families
 FOREIGN = ["int", "none", "str", "other_family_file", "list", "elem"]
 
 
-def build(fam, seq, as_file):
+def build(fam, seq, as_file, noise=0):
     F = families.get(fam)
     T = families.elem_classes(fam)
     elems = [T[c](data=[d]) for c, d in seq]
     c = F["Data"](elems[0])
     for e in elems[1:]:
         c.append(e)
+    if noise and len(elems) > 1:
+        # operations that leave the sequence as it is: removing an element that is not a member, removing a member and putting it
+        # back, removing the same (non-first) member twice and appending it again -- equality is about the sequence, not the history
+        if noise % 3 == 1:
+            c.remove(T[0](data=[99]))
+        elif noise % 3 == 2:
+            last = elems[-1]
+            c.remove(last)
+            c.remove(last)
+            c.append(last)
+        else:
+            x = T[2](data=[7])
+            c.append(x)
+            c.remove(x)
     return F["File"](c) if as_file else c
 
 
@@ -103,14 +117,17 @@ class CHECK(Check):
                         "distinct_containers": a.data is not b.data}
             except Exception as e:
                 return {"raised": type(e).__name__ + ": " + str(e)[:80]}
-        a = build(case["fam"], case["xs"], case["file"])
+        import hashlib, json
+        h = int(hashlib.sha1(json.dumps(case, sort_keys=True).encode()).hexdigest(), 16)
+        na, nb = (h % 4, (h >> 3) % 4) if h & 64 else (0, 0)    # half of the cases: sequence-preserving operations before comparing
+        a = build(case["fam"], case["xs"], case["file"], na)
         if case["ys"] is None:
             f = case["foreign"]
             other = families.FAMILIES[(families.FAMILIES.index(case["fam"]) + 1) % 3]
             b = {"int": 3, "none": None, "str": "x", "list": [1], "elem": families.elem_classes(case["fam"])[0](data=[1]),
                  "other_family_file": build(other, case["xs"], True)}[f]
             return {"ab": bool(a == b), "ba": bool(b == a), "ne": bool(a != b)}
-        b = build(case["fam"], case["ys"], case["file"])
+        b = build(case["fam"], case["ys"], case["file"], nb)
         a2 = build(case["fam"], case["xs"], case["file"])
         return {"ab": bool(a == b), "ba": bool(b == a), "ne": bool(a != b), "aa": bool(a == a), "aa2": bool(a == a2),
                 "again": bool(a == b)}
